@@ -45,6 +45,8 @@ class ShapeInterp:
         self.result = None
         self.problems = []
         self.loc = ctx_loc
+        self.mvars = []             # loop variables currently ranging over self.measurements
+        self.defs = {}              # name -> text of its last definition
 
     def sym(self, name):
         if name == 'M':
@@ -78,6 +80,11 @@ class ShapeInterp:
             return table[s]
         if s.startswith('isinstance(self.timepoints'):
             return False
+        if isinstance(t, ast.Compare) and len(t.ops) == 1 and isinstance(t.ops[0], (ast.IsNot, ast.NotEq, ast.Is, ast.Eq)):
+            flip = {ast.IsNot: ast.Is, ast.Is: ast.IsNot, ast.NotEq: ast.Eq, ast.Eq: ast.NotEq}[type(t.ops[0])]
+            neg = src(ast.Compare(left=t.left, ops=[flip()], comparators=t.comparators)).replace(' ', '')
+            if neg in table:
+                return not table[neg]
         raise AnalysisError('extract_data: condition not understood by the shape analysis: %s' % src(t))
 
     # ---- shapes
@@ -105,12 +112,17 @@ class ShapeInterp:
             raise AnalysisError('shape of %s unknown' % n.id)
         if isinstance(n, ast.Attribute) and n.attr == 'T':
             return tuple(reversed(self.shape(n.value)))
+        fs = self.frame_selection(n)
+        if fs is not None:
+            return fs
         if isinstance(n, ast.Call):
             f = src(n.func)
             if f in ('np.array', 'np.asarray', 'numpy.array'):
                 a = n.args[0]
                 if isinstance(a, ast.Call) and src(a.func).endswith('.get'):
-                    return ('T',)
+                    return self.column(a, a.args[0] if a.args else None)
+                if isinstance(a, ast.Subscript) and isinstance(a.value, ast.Name) and a.value.id in ('df', 'exp_data'):
+                    return self.column(a, a.slice)
                 v = self.shape(a)
                 if isinstance(v, Lst):
                     if v.elem is None:
@@ -171,6 +183,45 @@ class ShapeInterp:
                 return tuple(e)
         raise AnalysisError('shape of %s unknown' % src(n))
 
+    def column(self, node, key):
+        """axes of frame.get(key) / frame[key]: the column must be named by the measured species (or be the time column)"""
+        k = src(key).replace(' ', '') if key is not None else None
+        if k == 'self.time_column':
+            return ('T',)
+        if k == 'self.measurements':
+            return ('T', self.sym('M'))         # list indexing keeps the order of the list
+        if k == 'self.measurements[0]' and self.sc['M1']:
+            return ('T',)
+        if self.mvars and k == self.mvars[-1]:
+            return ('T',)
+        self.problems.append('column selected by `%s` at %s: not by the name of the measured species in the order of self.measurements'
+                             % (k, self.loc(node)))
+        return ('T',)
+
+    def frame_selection(self, n):
+        """frame.loc[:, sel] / frame[sel] (.to_numpy() / .values): -> axes or None if n is not such a selection"""
+        x = n
+        if isinstance(x, ast.Call) and isinstance(x.func, ast.Attribute) and x.func.attr in ('to_numpy', 'copy'):
+            x = x.func.value
+        if isinstance(x, ast.Attribute) and x.attr == 'values':
+            x = x.value
+        if not isinstance(x, ast.Subscript):
+            return None
+        base, sel = x.value, x.slice
+        if isinstance(base, ast.Attribute) and base.attr in ('loc', 'iloc') and isinstance(sel, ast.Tuple) and len(sel.elts) == 2 \
+                and isinstance(sel.elts[0], ast.Slice):
+            base, sel = base.value, sel.elts[1]
+        if not (isinstance(base, ast.Name) and base.id in ('df', 'exp_data')):
+            return None
+        k = src(sel).replace(' ', '')
+        if k in ('self.measurements', 'list(self.measurements)'):
+            return ('T', self.sym('M'))
+        d = self.defs.get(k)
+        if 'isin(' in k or (d is not None and 'isin(' in d):
+            raise ShapeError('columns selected by a membership mask (%s) at %s come in the order of the data frame, not in the order of '
+                             'self.measurements: data are no longer matched to species by name' % (d or k, self.loc(n)))
+        raise AnalysisError('extract_data: column selection %s not understood' % src(n))
+
     @staticmethod
     def core(shape):
         return tuple(a for a in shape if a != 1)
@@ -210,6 +261,7 @@ class ShapeInterp:
                 return
             if t in ('exp_data',):
                 return
+            self.defs[t] = src(v).replace(' ', '')
             try:
                 self.env[t] = self.shape(v)
             except AnalysisError:
@@ -240,7 +292,11 @@ class ShapeInterp:
             if symb is None:
                 raise AnalysisError('extract_data: loop over %s has no known meaning' % it)
             self.loops.append(self.sym(symb))
+            if symb == 'M':
+                self.mvars.append(src(s.target))
             self.run(s.body)
+            if symb == 'M':
+                self.mvars.pop()
             self.loops.pop()
             return
         if isinstance(s, ast.Return):
